@@ -476,6 +476,10 @@ def c12(ctx):
     r = ctx.tlc("MC_Lookup", dump="states", label="queries", timeout=1200)
     ctx.vh(["g-lookup", "-dump", r["dump"], "-expect", str(r["distinct"]), "-property", "C12"])
     os.remove(r["dump"])
+    # numeric kernels of the accessors on random values of every class (uint64 above 2^63 with arbitrary low bits, floats next to
+    # the integer limits): exact expectations via math/big, the range rule is Lookup.tla's
+    ctx.trusted = ["math/big for the exact value of random numeric literals in v-accessors"]
+    ctx.vh(["v-accessors", "-seed", str(ctx.seed), "-n", "4000" if quick(ctx) else "200000", "-property", "C12"], timeout=3000)
     ctx.exhaustive = True
 
 
@@ -543,6 +547,9 @@ def c11(ctx):
     os.remove(r2["dump"])
     ctx.vh(["deser-check", "-in", blobs, "-property", "C11"], tags="verif,noasm")
     ctx.vh(["v-serbig", "-seed", str(ctx.seed), "-scale", "1" if q else "3", "-property", "C11"], timeout=3000)
+    # every history of <= 2 (thorough 3) operations on ONE Serializer and ONE destination: Serialize x doc x mode, Deserialize of a
+    # valid blob of each mode, Deserialize of a blob with a damaged compressed payload / truncated / unknown version
+    ctx.vh(["v-serhist", "-seed", str(ctx.seed), "-len", "2" if q else "3", "-sample", "20000" if q else "300000", "-property", "C11"], timeout=3000)
     ctx.exhaustive = True
 
 
@@ -701,6 +708,7 @@ def c15(ctx):
     ctx.vh(["v-pipe", "-family", "reuse", "-n", "2" if q else "3", "-maxhist", "0" if q else "1200", "-trace", t,
             "-seed", str(ctx.seed), "-property", "C15"], timeout=7200)
     pipeline_trace_validate(ctx, c, t, "C15")
+    ctx.vh(["v-serhist", "-seed", str(ctx.seed), "-len", "2", "-sample", "20000" if q else "300000", "-property", "C15"], timeout=3000)
     if not m["ok"] and not ctx.mismatches:
         raise Infra("Pipeline.tla (multi-call) fails with the live constants but no history misbehaved on the real code:\n%s" % m["out"][-2500:])
     ctx.exhaustive = q
@@ -728,7 +736,8 @@ def c20(ctx):
                 "edit, Serialize/Deserialize in rotating modes with reused Serializer and destination, and ParseNDStream on their OWN "
                 "objects; every operation's result signature must equal the signature the same sequence produced when run alone; the "
                 "Get/Put hook events of the package-level pools are validated by TLC against Pools.tla (an object is never handed out "
-                "while it is out); the whole run is repeated under the Go race detector. Non-trivial = pool event while >= 2 pooled "
+                "while it is out); then, without any hook installed, all goroutines round-trip private documents through private Serializers "
+                "in the compressing modes as fast as they can for 3 s (thorough 30 s); the whole run is repeated under the Go race detector. Non-trivial = pool event while >= 2 pooled "
                 "objects were out (goroutines overlapping in a pooled section). Distinct = distinct worker seeds.")
     ctx.trusted = ["Go race detector (does not see stores made by the assembly)"]
     q = quick(ctx)
@@ -738,7 +747,8 @@ def c20(ctx):
         t = os.path.join(d, "pools-%s.ndjson" % race)
         rep = ctx.vh(["v-conc", "-trace", t, "-seed", str(ctx.seed + (7 if race else 0)),
                       "-ops", ("12" if race else "24") if q else "120",
-                      "-mult", ("1" if race else "4") if q else "8", "-property", "C20"], race=race, timeout=7200, allow_fail=True)
+                      "-mult", ("1" if race else "4") if q else "8", "-hammer", ("3s" if q else "30s"), "-property", "C20"],
+                     race=race, timeout=7200, allow_fail=True)
         if rep.get("failed"):
             err = rep.get("stderr_head", "") + rep.get("stderr", "")
             if "DATA RACE" in err:
@@ -748,7 +758,7 @@ def c20(ctx):
                                        "got": "the race detector reported a race", "detail": err[max(0, i - 50):i + 3000]})
                 continue
             if "PHASE concurrent" in err and ("panic:" in err or "fatal error" in err):
-                i = err.index("PHASE concurrent")
+                i = err.index("PHASE hammer") if "PHASE hammer" in err else err.index("PHASE concurrent")
                 j = min([k for k in (err.find("panic:", i), err.find("fatal error", i)) if k >= 0])
                 ctx.mismatches.append({"property": "C20", "sig": "concurrent-crash:" + err[j:j + 160].replace("\n", " "),
                                        "want": "each goroutine gets the results it got running alone (the same sequences completed alone in this process)",
